@@ -99,7 +99,7 @@ def gen_comp(r, enc=False, oversize=False):
     return (desc, blob, alen, enc)
 
 
-ALPHA = "abcXYZ019 _-./()äÿ#=;!"
+ALPHA = "abcXYZ019 _-./()äÿ#=;!\"'"
 
 
 def gen_comments(r):
